@@ -716,6 +716,16 @@ class ExcelCompiler:
                     failed.setdefault('exceptions', {}).setdefault(
                         exc_str_key, []).append((str(addr), formula, exc_str))
 
+                if verify_tree and cell is not None:
+                    # the precedents of a cell that failed still get verified
+                    verified.add(addr)
+                    try:
+                        to_verify.extend(
+                            a for a in cell.needed_addresses
+                            if a not in verified)
+                    except Exception:  # noqa: the formula does not parse
+                        pass
+
         return failed
 
     def formula_cells(self, sheet=None):
